@@ -65,7 +65,7 @@ def property_difference(step, diff, prev):
 
 def run_set(ctx, binary, tests, what, haspar, stats):
     args = [1 if haspar else 0, "all"]
-    res = ctx.run_harness(binary, "replay", tests, args=args, name=what, timeout=3000)
+    res = ctx.run_harness(binary, "replay", tests, args=args, name=what, timeout=9000)
     ctx.evaluations += int(res["summary"]["tests"]); ctx.traces += int(res["summary"]["tests"])
     ctx.extra["replayed_steps"] = ctx.extra.get("replayed_steps", 0) + int(res["summary"]["steps"])
     for k, v in res["summary"].items():
